@@ -20,7 +20,7 @@ func run(c *mon.Case) {
 		n = 0
 	}
 	// address layout with gaps
-	base := []uint64{0x100, 0, 0x7ffffff0, 1<<63 - 64}[r.Intn(4)]
+	base := []uint64{0x100, 0, 0x7ffffff0, 1<<63 - 64, 1<<63 - 8, 1 << 63, 0xffffffff80000000, 1<<64 - 0x1000}[r.Intn(8)]
 	type slot struct {
 		addr uint64
 		len  int
